@@ -81,6 +81,45 @@ def import_quantifier_stream(ctx, drv, n):
     return n_dis
 
 
+def spelling_stream(ctx, drv, n_keys):
+    """'whose spans are in the stated relation', however the relation is spelled: every Allen name and synonym, every
+    abbreviation, and formula spellings of canonical keys (`<=`, `==`, indices, spaces, upper case), on a database
+    holding one program per ordered pair of line intervals of a 4-line listing — so that any two different relations
+    differ on some program (single-line spans cannot tell `equals` from `meets`: seeded change C04-j resolved the
+    spellings `x == y` / `x = y` to `meets`)."""
+    rng = ctx.rng
+    ivs = [[a, b] for a in range(1, 5) for b in range(a, 5)]
+    programs = {}
+    for i, s1 in enumerate(ivs):
+        for j, s2 in enumerate(ivs):
+            programs[f"p{i}{j}.py"] = {"source": "l1\nl2\nl3\nl4", "taxa": {"A": [s1], "B": [s2]}, "labels": {}}
+    paths = sorted(programs)
+    db = {"programs": {p: programs[p] for p in paths}, "taxa": {"A": paths, "B": paths}, "labels": {},
+          "importations": {p: [] for p in paths}, "exportations": {p: [] for p in paths}}
+    T = drv.call("c16.tables")
+    spellings = [n for n, _ in T["aliases"]] + [a for a, _ in T["abbreviations"]]
+    spellings += ["x == y", "x = y", "y == x", "x1 == y1", "X==Y", "(x = y)", "is x == y", "x1=y1<=x2=y2", "x == y <= x == y"]
+    reqs = []
+    for k in rng.sample(T["keys"], n_keys):
+        style = {"up": [rng.random() < 0.3 for _ in range(4)], "idx": [rng.choice([None, None, 1, 2]) for _ in range(4)],
+                 "ops": [rng.choice("ca") for _ in range(3)], "junk": [rng.choice(["", "", " "]) for _ in range(8)]}
+        reqs.append({"op": "c16.render", "key": k, "style": style})
+    spellings += [r["s"] for r in drv.batch(reqs)]
+    n_dis = 0
+    for sp in spellings:
+        pre, post = rng.choice([("", ""), ("", ""), ("", ""), ("not ", ""), ("!", ""), ("", " not")])
+        op = rng.choice(["include", "include", "exclude", "impart"])
+        cmds = [{"operation": op, "data": [["A", pre + sp + post, "B"]]}]
+        eq, impl, model = filt.compare(db, cmds, drv)
+        ctx.count("relation spellings × all interval pairs", repr(cmds), nontrivial=filt.nontrivial(impl, db))
+        ctx.dist("spelling-outcome:" + (impl.get("exc") or "ok"))
+        if not eq:
+            n_dis += 1
+            if n_dis <= 2:
+                filt.report_disagreement(ctx, "run_pipeline differs from the documented set algebra", db, cmds, drv)
+    return n_dis
+
+
 def literal_stream(ctx, drv):
     """R3: for literal patterns, the oracle, the Lean definition 'prefix up to a word boundary' and the engine agree."""
     import regex
@@ -125,6 +164,7 @@ def run(ctx):
         n = 700 if ctx.tier == "quick" else 100000
         n_dis = streams(ctx, drv, n, None)
         n_dis += import_quantifier_stream(ctx, drv, 600 if ctx.tier == "quick" else 40000)
+        n_dis += spelling_stream(ctx, drv, 40 if ctx.tier == "quick" else 162)
         n_dis += literal_stream(ctx, drv)
         parse_stream(ctx, drv)
         ctx.cov["disagreements_checked"] = n_dis
